@@ -5,6 +5,7 @@
   listener never hit the `slots[index]` panic.
 -/
 import Rl.KillRing
+import Rl.Lemmas.KillRing
 namespace Rl
 
 structure RingOK (k : KillRing) : Prop where
@@ -12,131 +13,58 @@ structure RingOK (k : KillRing) : Prop where
   empty : k.slots = [] → k.index = 0
   idx : k.slots ≠ [] → k.index < k.slots.length
   kill : k.lastAction = .kill → k.cap = 0 ∨ k.slots ≠ []
+  /-- the slot yank reads (D33 repair: the yank-pop position is kept apart from `index`) -/
+  yidx : k.slots ≠ [] → k.yankIndex < k.slots.length
+  /-- during a kill sequence yank reads the slot being written -/
+  kyidx : k.lastAction = .kill → 0 < k.cap → k.yankIndex = k.index
 
-theorem RingOK.new (n : Nat) : RingOK (KillRing.new n) :=
-  ⟨Nat.zero_le _, fun _ => rfl, fun h => absurd rfl h, fun h => by cases h⟩
+/-- `RingOK` is the invariant `KillRing.WF` of `Rl/Lemmas/KillRing.lean` in the shape the editor
+    proofs use; the per-operation facts below are the `wf_…` lemmas carried over -/
+theorem RingOK.toWF {k : KillRing} (h : RingOK k) : KillRing.WF k :=
+  ⟨h.len, h.idx, h.empty, fun hk hc => by
+    rcases h.kill hk with h0 | h1
+    · omega
+    · exact h1, h.yidx, h.kyidx⟩
 
-theorem RingOK.reset {k : KillRing} (h : RingOK k) : RingOK k.reset :=
-  ⟨h.len, h.empty, h.idx, fun hh => by cases hh⟩
+theorem KillRing.WF.toRingOK {k : KillRing} (h : KillRing.WF k) : RingOK k :=
+  ⟨h.len_le, h.idx_zero, h.idx_lt,
+   fun hk => by
+    by_cases hc : k.cap = 0
+    · exact .inl hc
+    · exact .inr (h.kill_ne hk (by omega)), h.yidx_lt, h.kill_yidx⟩
+
+theorem RingOK.new (n : Nat) : RingOK (KillRing.new n) := (KillRing.wf_new n).toRingOK
+
+theorem RingOK.reset {k : KillRing} (h : RingOK k) : RingOK k.reset := (KillRing.wf_reset h.toWF).toRingOK
 
 theorem RingOK.startKilling {k : KillRing} (h : RingOK k) : RingOK k.startKilling :=
-  ⟨h.len, h.empty, h.idx, h.kill⟩
+  (KillRing.wf_startKilling h.toWF).toRingOK
 
 theorem RingOK.stopKilling {k : KillRing} (h : RingOK k) : RingOK k.stopKilling :=
-  ⟨h.len, h.empty, h.idx, h.kill⟩
+  (KillRing.wf_stopKilling h.toWF).toRingOK
 
 theorem RingOK.kill_ok {k : KillRing} (h : RingOK k) (t : Text) (d : KMode) :
     ∃ k', k.kill t d = .ok k' ∧ RingOK k' := by
-  unfold KillRing.kill
-  by_cases hla : (k.lastAction == KAction.kill) = true
-  · rw [if_pos hla]
-    by_cases hc : (k.cap == 0) = true
-    · rw [if_pos hc]; exact ⟨k, rfl, h⟩
-    · rw [if_neg hc]
-      have hla' : k.lastAction = .kill := by simpa using hla
-      have hne : k.slots ≠ [] := by
-        rcases h.kill hla' with h0 | h1
-        · simp [h0] at hc
-        · exact h1
-      have hi := h.idx hne
-      have hg : k.slots[k.index]? = some k.slots[k.index] := by simp [hi]
-      rw [hg]
-      refine ⟨_, rfl, ?_, ?_, ?_, ?_⟩
-      · simpa using h.len
-      · intro he; simp at he; exact absurd he hne
-      · intro _; simpa using hi
-      · intro _; right; simpa using hne
-  · rw [if_neg hla]
-    by_cases hc : (k.cap == 0) = true
-    · simp only [hc, if_true]
-      have hc0 : k.cap = 0 := by simpa using hc
-      exact ⟨_, rfl, h.len, h.empty, h.idx, fun _ => .inl hc0⟩
-    · simp only [hc, Bool.false_eq_true, if_false]
-      have hcap : k.cap ≠ 0 := by simpa using hc
-      by_cases hemp : k.slots = []
-      · have hi0 := h.empty hemp
-        have hidx : (if (k.index == k.cap - 1) = true then 0 else if (!k.slots.isEmpty) = true then k.index + 1 else k.index) = 0 := by
-          simp [hemp, hi0]
-        rw [hidx]
-        simp only [hemp, List.length_nil, beq_self_eq_true, if_true, List.nil_append]
-        refine ⟨_, rfl, ?_, ?_, ?_, ?_⟩
-        · simp; omega
-        · intro he; cases he
-        · intro _; simp
-        · intro _; right; simp
-      · have hi := h.idx hemp
-        have hlen := h.len
-        have hne : (!k.slots.isEmpty) = true := by simp [hemp]
-        by_cases hw : (k.index == k.cap - 1) = true
-        · simp only [hw, if_true]
-          have hpos : 0 < k.slots.length := by omega
-          have h0 : ((0 : Nat) == k.slots.length) = false := by simp; omega
-          simp only [h0, Bool.false_eq_true, if_false, hpos, if_true]
-          refine ⟨_, rfl, ?_, ?_, ?_, ?_⟩
-          · simpa using hlen
-          · intro he; simp at he; exact absurd he hemp
-          · intro _; simpa using hpos
-          · intro _; right; simpa using hemp
-        · simp only [hw, Bool.false_eq_true, if_false, hne, if_true]
-          have hw' : k.index ≠ k.cap - 1 := by simpa using hw
-          by_cases heq : (k.index + 1 == k.slots.length) = true
-          · simp only [heq, if_true]
-            have heq' : k.index + 1 = k.slots.length := by simpa using heq
-            refine ⟨_, rfl, ?_, ?_, ?_, ?_⟩
-            · simp; omega
-            · intro he; simp at he
-            · intro _; simp; omega
-            · intro _; right; simp
-          · simp only [heq, Bool.false_eq_true, if_false]
-            have heq' : k.index + 1 ≠ k.slots.length := by simpa using heq
-            have hlt : k.index + 1 < k.slots.length := by omega
-            simp only [hlt, if_true]
-            refine ⟨_, rfl, ?_, ?_, ?_, ?_⟩
-            · simpa using hlen
-            · intro he; simp at he; exact absurd he hemp
-            · intro _; simpa using hlt
-            · intro _; right; simpa using hemp
+  obtain ⟨k', he, hw, _⟩ := KillRing.wf_kill h.toWF t d
+  exact ⟨k', he, hw.toRingOK⟩
 
 theorem RingOK.onDelete_ok {k : KillRing} (h : RingOK k) (t : Text) (d : Direction) :
     ∃ k', k.onDelete t d = .ok k' ∧ RingOK k' := by
-  unfold KillRing.onDelete
-  split
-  · exact ⟨k, rfl, h⟩
-  · exact h.kill_ok t _
+  obtain ⟨k', he, hw, _⟩ := KillRing.wf_onDelete h.toWF t d
+  exact ⟨k', he, hw.toRingOK⟩
 
 theorem RingOK.yank_ok {k : KillRing} (h : RingOK k) : ∃ k' t, k.yank = .ok (k', t) ∧ RingOK k' := by
-  unfold KillRing.yank
-  by_cases hemp : k.slots.isEmpty = true
-  · rw [if_pos hemp]; exact ⟨k, none, rfl, h⟩
-  · rw [if_neg hemp]
-    have hne : k.slots ≠ [] := by simpa using hemp
-    have hi := h.idx hne
-    have hg : k.slots[k.index]? = some k.slots[k.index] := by simp [hi]
-    rw [hg]
-    exact ⟨_, _, rfl, h.len, h.empty, h.idx, fun hh => by cases hh⟩
+  obtain ⟨k', r, he, hw, _⟩ := KillRing.wf_yank h.toWF
+  exact ⟨k', r, he, hw.toRingOK⟩
 
 theorem RingOK.yankCount {k : KillRing} (h : RingOK k) (n : Nat) : RingOK (k.yankCount n) := by
   unfold KillRing.yankCount
   split
-  · exact ⟨h.len, h.empty, h.idx, fun hh => by cases hh⟩
+  · exact ⟨h.len, h.empty, h.idx, (fun hh => by cases hh), h.yidx, (fun hh => by cases hh)⟩
   · exact h
 
 theorem RingOK.yankPop_ok {k : KillRing} (h : RingOK k) : ∃ k' r, k.yankPop = .ok (k', r) ∧ RingOK k' := by
-  unfold KillRing.yankPop
-  split
-  · rename_i size hla
-    by_cases hemp : k.slots.isEmpty = true
-    · rw [if_pos hemp]; exact ⟨k, none, rfl, h⟩
-    · rw [if_neg hemp]
-      have hne : k.slots ≠ [] := by simpa using hemp
-      have hi := h.idx hne
-      have hlt : (if (k.index == 0) = true then k.slots.length - 1 else k.index - 1) < k.slots.length := by
-        split <;> omega
-      have hg : k.slots[if (k.index == 0) = true then k.slots.length - 1 else k.index - 1]? =
-          some (k.slots[if (k.index == 0) = true then k.slots.length - 1 else k.index - 1]'hlt) := by
-        simp [hlt]
-      simp only [hg]
-      exact ⟨_, _, rfl, h.len, fun he => absurd he hne, fun _ => hlt, fun hh => by cases hh⟩
-  · exact ⟨k, none, rfl, h⟩
+  obtain ⟨k', r, he, hw, _⟩ := KillRing.wf_yankPop h.toWF
+  exact ⟨k', r, he, hw.toRingOK⟩
 
 end Rl
